@@ -9,6 +9,7 @@ import (
 	"net/url"
 	"path/filepath"
 	"strings"
+	"unicode/utf8"
 
 	"github.com/valyala/fastjson"
 )
@@ -343,21 +344,43 @@ func cleanURLPath(p string) string {
 	return filepath.Clean(p)
 }
 
+// equalFold reports whether s and t are equal under Unicode simple case folding, as strings.EqualFold does,
+// except that a byte which is not part of a well formed UTF-8 sequence is equal to the same byte only.
+// strings.EqualFold reads every such byte as U+FFFD, so that "/\xff" and "/\xfe" (what the paths "/%ff"
+// and "/%fe" decode to) were equal, and so were either of them and the character U+FFFD itself.
+func equalFold(s, t string) bool {
+	for len(s) > 0 && len(t) > 0 {
+		rs, ns := utf8.DecodeRuneInString(s)
+		rt, nt := utf8.DecodeRuneInString(t)
+		bs := rs == utf8.RuneError && ns == 1
+		bt := rt == utf8.RuneError && nt == 1
+		if bs || bt {
+			if !bs || !bt || s[0] != t[0] {
+				return false
+			}
+		} else if rs != rt && !strings.EqualFold(s[:ns], t[:nt]) {
+			return false
+		}
+		s, t = s[ns:], t[nt:]
+	}
+	return len(s) == len(t)
+}
+
 func irisEqual(i1, i2 IRI, checkScheme bool) bool {
 	u, e := i1.URL()
 	uw, ew := i2.URL()
 	if e != nil || ew != nil || !validURL(u) || !validURL(uw) {
-		return strings.EqualFold(i1.String(), i2.String())
+		return equalFold(i1.String(), i2.String())
 	}
 	if checkScheme {
-		if !strings.EqualFold(u.Scheme, uw.Scheme) {
+		if !equalFold(u.Scheme, uw.Scheme) {
 			return false
 		}
 	}
-	if !strings.EqualFold(u.Host, uw.Host) {
+	if !equalFold(u.Host, uw.Host) {
 		return false
 	}
-	if !strings.EqualFold(cleanURLPath(u.Path), cleanURLPath(uw.Path)) {
+	if !equalFold(cleanURLPath(u.Path), cleanURLPath(uw.Path)) {
 		return false
 	}
 	uq := u.Query()
@@ -402,7 +425,7 @@ func (i IRI) Equals(with IRI, checkScheme bool) bool {
 		is = stripScheme(is)
 		ws = stripScheme(ws)
 	}
-	if strings.EqualFold(is, ws) {
+	if equalFold(is, ws) {
 		return true
 	}
 	return irisEqual(i, with, checkScheme)
